@@ -571,6 +571,34 @@ class Ctx(object):
             lp.window = (x, Y, C)
             return
 
+    def holds_at(self, body, gbb, bb):
+        """does the accept condition of the guard in block gbb hold when bb executes?  Either the guard dominates bb, or it sits in an
+        earlier loop that (a) checks it on every iteration, (b) is left, on accepted paths, only when its iterator is exhausted, and
+        (c) is finished before bb: a fact checked for every member by a completed loop still holds when a later loop walks the members
+        again (the canonical names of per-member data do not depend on which loop reads them)."""
+        cfg = self.cfgof(body)
+        if gbb != bb and cfg.dominates(gbb, bb):
+            return True
+        hs = cfg.loop_of.get(gbb, [])
+        if not hs:
+            return False
+        lps = self.loops(body)
+        for h in hs:
+            lp = lps.get(h)
+            if lp is None or bb in lp.blocks or not cfg.dominates(lp.header, bb):
+                continue
+            if lp.iter_term is None or not lp.driver_only_exit:
+                continue
+            if not self.every_iteration(body, lp, gbb):
+                continue
+            # nested: the guard must also run on every iteration of the loops between it and lp (checked for the innermost only)
+            if hs[-1] != h:
+                inner = lps.get(hs[-1])
+                if inner is None or not inner.driver_only_exit or not self.every_iteration(body, inner, gbb):
+                    continue
+            return True
+        return False
+
     def enclosing_loops(self, body, bb):
         cfg = self.cfgof(body)
         lps = self.loops(body)
